@@ -2223,10 +2223,17 @@ class DateAdapter(se.Adapter):
         # Whole seconds and the sub-second part are kept apart, a float of seconds
         # can't hold a microsecond stamp exactly
         secs, frac = divmod(val, self._multiplier)
-        when = datetime.datetime.fromtimestamp(secs)
+        try:
+            when = datetime.datetime.fromtimestamp(secs)
+        except (ValueError, OverflowError, OSError):
+            # Further out than `datetime` reaches. Same convention as the enum
+            # adapters, what can't be prettified stays a plain number.
+            return val
         return when.replace(microsecond=frac * 1_000_000 // self._multiplier).isoformat()
 
     def encode(self, val: Any, ctx: Optional[se.ParseContext]) -> Any:
+        if isinstance(val, int):
+            return val
         when = datetime.datetime.fromisoformat(val)
         secs = round(when.replace(microsecond=0).timestamp())
         return secs * self._multiplier + when.microsecond * self._multiplier // 1_000_000
